@@ -414,6 +414,64 @@ class Gen(object):
                 self.features.add('where')
         return out
 
+    def delete_linked(self, env):
+        """an instance that takes part in links (a chain member with neighbours on both sides, one of several partners on
+        a many end ...) is deleted without being unrelated first: it leaves every link it took part in, and what its
+        neighbours reach afterwards is observed from each of them"""
+        t = self.t
+        out = []
+        fc, tc, rel, ph = t.choice(RELATES)
+        R = lambda x, y, r_, p_: N('RelateNode', from_variable_name=x, to_variable_name=y, rel_id='R%d' % r_, phrase=("'%s'" % p_) if p_ else '')
+        if fc == 'L':
+            # link instance between an A and a D
+            x, p0 = self.create(env, 'L')
+            a, p1 = self.create(env, 'A')
+            d, p2 = self.create(env, 'D')
+            out += p0 + p1 + p2 + [N('RelateUsingNode', from_variable_name=a, to_variable_name=d, rel_id='R4', phrase='', using_variable_name=x)]
+            victim, others = t.choice([(x, [a, d]), (a, [x, d]), (d, [x, a])])
+        elif fc == 'P':
+            # a chain of three, the middle (or an end) goes
+            ps = []
+            for _ in range(3):
+                v, pre = self.create(env, 'P')
+                ps.append(v)
+                out += pre
+            out += [R(ps[0], ps[1], 3, ph), R(ps[1], ps[2], 3, ph)]
+            j = t.choice([1, 1, 0, 2])
+            victim, others = ps[j], [v for i, v in enumerate(ps) if i != j]
+        else:
+            x, p0 = self.create(env, fc)
+            y, p1 = self.create(env, tc)
+            out += p0 + p1 + [R(x, y, rel, ph)]
+            others = [y]
+            if fc == 'B':
+                x2, p2 = self.create(env, 'B')       # a second B on the same A
+                out += p2 + [R(x2, y, rel, ph)]
+                others.append(x2)
+            victim = x
+            if t.flag():
+                victim, others = y, [x] + others[1:]
+        out.append(N('DeleteNode', variable_name=victim))
+        vcls = env.get(victim)['cls']
+        env.drop(victim)
+        self.features.add('delete')
+        self.features.add('delete-linked')
+        for o in others:
+            ocls = env.get(o)['cls']
+            for hop in HOPS[ocls]:
+                if hop[0] != vcls and not (ocls == 'A' and hop[0] == 'D') and not (ocls == 'D' and hop[0] == 'A'):
+                    continue
+                name = env.fresh(hop[0].lower() + 's_')
+                out.append(N('SelectRelatedNode', cardinality='many', variable_name=name, handle=self.var(o),
+                             navigation_chain=N('NavigationListNode', children=[
+                                 N('NavigationStepNode', key_letter=hop[0], rel_id='R%d' % hop[1], phrase=("'%s'" % hop[2]) if hop[2] else '')])))
+                env.set(name, {'ty': 'set', 'cls': hop[0], 'nonempty': False})
+                if env.get('acc') is not None:
+                    out.append(N('AssignmentNode', variable_access=self.var('acc'), expression=N(
+                        'BinaryOperationNode', left=N('BinaryOperationNode', left=self.var('acc'), operator='*', right=N('IntegerNode', value='3')),
+                        operator='+', right=N('UnaryOperationNode', operator='cardinality', operand=self.var(name)))))
+        return out
+
     def nonempty_insts(self, env, cls=None):
         return env.vars(lambda i: i['ty'] == 'inst' and i.get('nonempty') and (cls is None or i['cls'] == cls))
 
@@ -561,6 +619,8 @@ class Gen(object):
                                 phrase=("'%s'" % hop[2]) if hop[2] else '')]
                 self.features.add('re-relate')
             return out
+        if k == 14 and t.pick(3) == 0:
+            return self.delete_linked(env)
         if k == 14:              # delete a fresh instance
             name, pre = self.create(env)
             env.drop(name)
